@@ -498,7 +498,7 @@ var RuleEdits = []string{
 	"!BodyAndFormData", "!ArrayParamNoItems", "!NestedItemsNoItems", "!HeaderArrayNoItems", "!BodySchemaArrayNoItems", "!ResponseSchemaArrayNoItems", "!DefinitionArrayNoItems",
 	"!RequiredUndefined", "!RequiredVsAdditionalFalse", "!RequiredNotInAdditionalSchema", "!DanglingRef", "!DupInheritedProperty", "!CircularAncestryDirect", "!CircularAncestryIndirect",
 	"!OverlappingPaths", "!CircularAncestryBareRing", "!PathParamOnPlainPath", "!DupInheritedViaBareChild", "!BadPatternParam", "!BadPatternHeader", "!BadPatternSchema", "!BadPatternItems",
-	"!SecondBodySameName", "!BadPatternNonStringParam", "!BadPatternSharedNonStringParam", "!UndeclaredLaterPlaceholder", "!DupInheritedViaAlias", "!DupInheritedViaAliasOfAlias",
+	"!SecondBodySameName", "!BadPatternNonStringParam", "!BadPatternSharedNonStringParam", "!UndeclaredLaterPlaceholder", "!DupInheritedViaAlias", "!DupInheritedViaAliasOfAlias", "!EmptyPlaceholderInMixedSegment",
 	"=AddUnrelatedDefinition", "=RequiredViaAdditionalTrue", "=RequiredViaAdditionalSchema", "=MixedSegmentSiblings", "=MoveParamToPathLevel", "=SameParamNameOtherLocation", "=EmptyOperationIds",
 }
 
@@ -609,6 +609,8 @@ func ApplyRuleEdit(d *ADoc, e string, r *rand.Rand) (ok bool) {
 		return false
 	case "!EmptyPlaceholder":
 		p.Template += "/e/{}"
+	case "!EmptyPlaceholderInMixedSegment":
+		p.Template += []string{"/e/{}.json", "/e/id-{}", "/photo-{}/raw"}[r.Intn(3)]
 	case "!DupNameIn":
 		op.Params = append(op.Params, AParam{Name: "dup", Loc: "query", Type: "string"}, AParam{Name: "dup", Loc: "query", Type: "integer"})
 	case "!SecondBody":
